@@ -35,6 +35,9 @@ CHECKS = {
  "C14": dict(cat="model_checking", ref="5/C14",
    tech="TLA+ spec Extract.tla with logical clock (Expire, DueForReRequest, Body8003); TLC exhaustive behaviours with Tick steps across the 5 s / 60 s thresholds (MC_SubPkg: ExactMissing, ReReqSpacing, MustReRequest, ExpiredNeverDelivered); replay on the real extractor with Age(d); Trace_Extract",
    text="TLC enumerates terminal behaviours with time steps of 4.9 s, 5.2 s and 55 s between frames so that transfers cross the idle and expiry thresholds from both sides, checking on the specification that a re-request names the first packet's serial and exactly the missing numbers ascending, occurs only after more than 5 s without progress or re-request and then always on the next inbound data, and that nothing is delivered from a transfer older than 60 s. Every behaviour is replayed on the real packageParse (Age(d) moves the transfer timestamps) comparing messages and the 0x8003 bodies; random sessions with age jumps and totals to 255 are validated by Trace_Extract."),
+ "C06": dict(cat="model_checking", ref="5/C06",
+   tech="TLA+ specs Replies.tla (reply function), Extract.tla and Trace_Conn.tla (per-connection queues: toReport, msgChan, write-callback and wire queues, platform serial); TLC trace validation of events recorded from a live server (terminal sockets, TerminalEventer callbacks, writer hook points) under seeded concurrent conversations",
+   text="A live default-configuration server is driven over loopback TCP by concurrent harness terminals with seeded conversations over every default-registered terminal id, responses, platform ids, unsupported ids, both header versions, serials around 0/65535, the all-zero phone, coalesced/split writes and interleaved sub-packaged messages. Every event - bytes sent, read callback, dequeue by the writer, reply start, write callback with the bytes, frame received by the terminal - is stepped through Trace_Conn, which keeps the implementation's queues and the platform serial and derives each reply from Replies!ReplyFor: exactly one reply per reply-bearing message, right type/addressing/echo, in request order, consecutive serials (the thorough tier crosses 65535), read callback before the writer touches the message, write callback once with the bytes sent, nothing left over at quiescence."),
 }
 
 NA_REASON = "check not built yet (work in progress; see DESIGN.md section 10)"
